@@ -23,10 +23,12 @@ Definition getters (p : bytes) : val :=
      ].
 
 Definition zbool (z : Z) : bool := negb (Z.eqb z 0).
-Definition dec_op (v : val) : option AF.op :=
+(* `self` = the current packet, for code 14: SetAdaptationField with the packet itself as the source (aliasing) *)
+Definition dec_op (self : option bytes) (v : val) : option AF.op :=
   match v with
   | VL [VI c; VI a] =>
     match c with
+    | 14 => match self with Some p => Some (AF.OSetAF p) | None => None end
     | 0 => Some (AF.OSetDisc (zbool a)) | 1 => Some (AF.OSetRAI (zbool a)) | 2 => Some (AF.OSetPrio (zbool a))
     | 3 => Some (AF.OSetHasPCR (zbool a)) | 4 => Some (AF.OSetHasOPCR (zbool a))
     | 5 => Some (AF.OSetHasSplice (zbool a)) | 6 => Some (AF.OSetHasTPD (zbool a))
@@ -48,7 +50,7 @@ Fixpoint hist (p : bytes) (ops : list val) : list val :=
   match ops with
   | [] => []
   | v :: rest =>
-    match dec_op v with
+    match dec_op (Some p) v with
     | None => [vbad]
     | Some o =>
       match AF.step p o with
@@ -91,7 +93,7 @@ Definition op_ser (a : list val) : val :=
 Fixpoint dec_ops (vs : list val) : option (list AF.op) :=
   match vs with
   | [] => Some []
-  | v :: t => match dec_op v, dec_ops t with Some o, Some r => Some (o :: r) | _, _ => None end
+  | v :: t => match dec_op None v, dec_ops t with Some o, Some r => Some (o :: r) | _, _ => None end
   end.
 Definition op_wf (a : list val) : val :=
   match a with
